@@ -100,6 +100,15 @@ def main():
     nA = 150 if not ck.thorough else 3000
     opsA = [gen_ops(rng, ck.thorough) for _ in range(nA)]
     casesA = [{"kind": "loc", "state": st, "storage": sto, "locs": ["a", "p", "q"], "ops": copy.deepcopy(o)} for o in opsA for st in ("indexed", "linear") for sto in ("mem", "bolt")]
+    # minimised / recorded past failures run first (corpus/C06.jsonl)
+    corpus = os.path.join(VERIF, "corpus", "C06.jsonl")
+    if os.path.exists(corpus):
+        pre = []
+        for l in open(corpus):
+            if l.strip():
+                cc = json.loads(l); cc.pop("note", None)
+                pre.append(cc)
+        casesA = pre + casesA
     implA, modelA, mcA = lr.run(casesA, nontrivial=lambda c: True)
     # direct: the observations right before and right after every reload are identical
     for c, i in zip(mcA, implA):
